@@ -66,6 +66,31 @@ def r37_status_changes_logged(ctx):
                 ctx.check(ok, R, c, f, "an 'elect'/'defeat' action is recorded only by the method that makes that status change",
                           'inside Candidate.%s' % f.name, "'%s' action logged from %s: the record lists an election/exclusion that is not "
                           "the status change made at that step" % (const_str(c.args[0]), f.qualname), nontrivial=False)
+    # tally-carrying actions (every tag but 'log') are recorded only while the count itself runs: from the rules' count()
+    # and their local helpers, from the Candidate status methods, Election.newRound and Election.count.  Whatever runs
+    # after (or instead of) the count - report/dump/json, interrupt handling - may only add 'log' lines, which carry no tallies.
+    n_snap = 0
+    for f in ctx.repo.funcs.values():
+        if not f.module.name.startswith('droop'):
+            continue
+        for c in f.own_nodes():
+            if not (isinstance(c, ast.Call) and isinstance(c.func, ast.Attribute) and c.func.attr in ('logAction', 'action') and c.args):
+                continue
+            if c.func.attr == 'action' and not unparse(c.func.value).endswith('erecord'):
+                continue
+            tag = const_str(c.args[0])
+            if tag == 'log':
+                continue
+            n_snap += 1
+            out = f.outermost
+            in_count = out.name == 'count' and out.owner_class is not None and out.module.name.startswith('droop.rules.')
+            ok = in_count or f.owner_class is cand or f.qualname in ('droop.election.Election.newRound', 'droop.election.Election.count',
+                                                                     'droop.election.Election.logAction')
+            ctx.check(ok, R, c, f, 'snapshots of the tallies are recorded only by the count itself (rule code, Candidate status methods, newRound, Election.count)',
+                      'recorded from %s' % f.qualname,
+                      "a '%s' action (which snapshots every tally) is recorded from %s: outside the count the books need not balance "
+                      '(an interrupt can land in the middle of a transfer)' % (tag if tag else unparse(c.args[0]), f.qualname), nontrivial=False)
+    ctx.floor(R, 'snapshot-recording call sites', n_snap, 35)
     # unpend logs 'unpend' when given a message (informational shape)
     # Election.logAction forwards to the record unconditionally
     la = ctx.repo.func('droop.election.Election.logAction')
